@@ -2243,6 +2243,16 @@ class Normaliser:
                 return find(e.value, lambda v, e=e: setattr(e, 'value', v))
             if isinstance(e, ast.Starred):
                 return find(e.value, lambda v, e=e: setattr(e, 'value', v))
+            if isinstance(e, ast.JoinedStr):
+                # the fields of an f-string are evaluated left to right
+                for p_ in e.values:
+                    if isinstance(p_, ast.FormattedValue):
+                        got = find(p_.value, lambda v, p_=p_: setattr(p_, 'value', v))
+                        if got is not None:
+                            return got
+                        if has_call(p_.value):
+                            return None
+                return None
             return None
 
         got = find(getattr(root, field), lambda v: setattr(root, field, v))
